@@ -38,6 +38,7 @@ std::uint64_t verif_concretize(std::uint64_t v, std::uint64_t) { return v; }
 int verif_is_symbolic(std::uint64_t) { return 0; }
 void verif_abort(void) { std::printf("VERIF-ABORT\n"); std::fflush(stdout); std::_Exit(6); }
 bool verif_known(const char*, bool) { return false; }
+void verif_depth_limit(std::uint64_t) {}
 void verif_uf(const char* n, const void*, std::size_t, void*, std::size_t) { std::printf("REPLAY-MISMATCH verif_uf %s reached natively\n", n); std::fflush(stdout); std::_Exit(4); }
 }
 int main(int argc, char** argv) {
